@@ -44,6 +44,14 @@ CLAIMED = {
          "sigma on/off grid) and PRISM.cost on systems in which only some pairs have cores; c = -1-gamma bitwise, g = y/r after every cost(x), |g| <= |fun|/r on solved objects and core-follows-diameter on "
          "re-used Systems are evaluated on the implementation.",
          "4 C03", "Lean 4 proof (closure algebra + DST inverse through the cost model) + differential correspondence"),
+ 'C04': ("Lean theorems: matrix_map_perm (the per-wavenumber map (Omega, C) -> (1 - Omega C)^-1 Omega C Omega of cost is equivariant under EVERY permutation of the type labels; Matrix.submatrix / inverse lemmas), "
+         "elementwise_perm, prism_solution_unique (an invertible PRISM equation has exactly the solution cost computes), split_lifts (for ANY number of labelled species with densities summing to rho and ANY symmetric "
+         "Omega whose rows sum to rho_a omega - monatomic A/A' with any ratio, diblock halves with the 1/(N_A+N_B) cross convention - the lifted h_ab = h, c_ab = c solve the n-component PRISM equation), monatomic_rows "
+         "(the code's rho_site convention has those row sums), potential_homogeneous (all seven shipped potential kinds, degree 1 in the energies), closure_input_invariant (U_s/(s kT) = U/kT), pmf_scales. "
+         "PARTIAL: equivariance is proved stage by stage (matrix map here; the closure and transform stages act pair by pair by C01's CostTrace lemmas) rather than as one statement about cost. "
+         "Metamorphic relations are evaluated on the implementation at the level of a single cost evaluation for arbitrary x (exact to rounding: all permutations, renaming, splits into 2-3 species incl. "
+         "diblock halves next to a solvent, energy scale 1e-2..1e2 with kT via constructor or assignment) and on converged solves; the reformulated systems also go through the Lean model.",
+         "4 C04", "Lean 4 proof (matrix conjugation, block algebra, homogeneity) + metamorphic differential checks; partial (stage-wise equivariance)"),
  'C05': ("Lean theorems about a statement-for-statement model of the seven calculate functions (Model/Calculate.lean), for every rank, every flag value and arrays stored in either space: "
          "pair_correlation_def (h+1), pmf_def (-kT ln g), structure_factor_def (rho_pair h + Omega, /rho_site when normalised), second_virial_def, chi_def with chi_weights (linear in C with weights "
          "1/R : R : -2, prefactor independent of C) and chi_equal_volumes ((rho/2)(Caa+Cbb-2Cab)), spinodal_def with spinodal_is_det (the eight-term expression = det(1 - Omega C) of the pair's symmetric "
